@@ -132,6 +132,24 @@ static inline void KeySet_values(KeyList *r, const KeySet *s)
 }
 static inline void KeySet_uniqueKeys(OwnerList *r, const KeySet *s) { r->has_o = s->has_owner; r->nonempty = s->nonempty; }
 
+static inline bool KeySet_contains(const KeySet *s, qstr owner, qkey key)
+{
+  if (owner == g_o && key == g_k) return s->has_pair;
+  bool r = nondet_bool();                                   /* membership of a pair other than the witness: not tracked */
+  __CPROVER_assume(!r || s->nonempty);
+  return r;
+}
+
+/* ---- QHash<QString, QMultiHash<QString, QByteArray>>: encryption -> keys (the "modified keys" of a setTrustLevel) -------------
+ * witness view: the keys listed under encryption `enc`; nothing under any other encryption */
+typedef struct ModifiedKeys { qstr enc; KeySet v; } ModifiedKeys;
+static inline void ModifiedKeys_value(KeySet *r, const ModifiedKeys *m, qstr encryption)
+{
+  if (encryption == m->enc) *r = m->v; else KeySet_ctor(r);
+}
+static inline bool ModifiedKeys_isEmpty(const ModifiedKeys *m) { return !m->v.nonempty; }
+static inline void sig_trustLevelsChanged(const QXmppAtmManager *self, const ModifiedKeys *modifiedKeys) { }
+
 /* ---- QHash<bool, QMultiHash<QString, QByteArray>>: the answer of keysForPostponedTrustDecisions ----------------------------- */
 typedef struct PostponedResult { KeySet t, f; } PostponedResult;
 static inline void PostponedResult_value(KeySet *r, const PostponedResult *p, bool key) { *r = key ? p->t : p->f; }
